@@ -56,6 +56,6 @@ def verdict_job(job):
 def main(tier):
     js = jobs(tier)
     base = list(js)
-    js += common.staged(base, stride=6 if tier == "quick" else 4, kinds=("solve", "init"))
+    js += common.staged(base, stride=6 if tier == "quick" else 4, kinds=("solve", "init", "older"))
     js += common.early(base, stride=7 if tier == "quick" else 5)
     return common.run_space_check("C05", tier, js, RULE, ASSUME, budget_s=480 if tier == "quick" else 3000)
